@@ -575,9 +575,11 @@ LABELS_PLAIN = ['src 1', 'A', 'My label here', 'region18', 'NGC_1234-b', 'x;y#z'
 # (also: '=' inside a quoted string; characters that str.splitlines() treats as line boundaries but the CRTF line
 # grammar does not - form feed, vertical tab, FS/GS/RS, NEL, LS, PS)
 LINECHARS = ['page\x0cbreak', 'v\x0bt', 'fs\x1cgs\x1drs\x1eend', 'nel\x85x', 'ls\u2028x', 'ps\u2029x', 'tab\tx']
-LABELS_HOSTILE = ['NGC 1234, north', 'bracket [1]', 'say "hi" there', 'a,b', 'S/N = 5', 'k=v'] + LINECHARS
+LABELS_HOSTILE = ['NGC 1234, north', 'bracket [1]', 'say "hi" there', 'a,b', 'S/N = 5', 'k=v', 'RADIO FMT', '{0}'] + LINECHARS
 TEXTS = ['hello', 'a b', 'NGC 1234', 'x;y#z', 'α Cen', 'two, parts', 'T', '(1) core + jet', '3.5mJy', 'the "core"', '"quoted"', 'offset 30"',
-         'S/N = 5.2', 'k=v', 'a= b', 'x [1]'] + LINECHARS
+         'S/N = 5.2', 'k=v', 'a= b', 'x [1]',
+         # strings that look like the serialiser's own template placeholders / unit names
+         'RADIO peak', 'NE QUADRANT', 'FMT', 'in deg, RAD or FMT', '{text} {0}', '1.5arcsec', 'coord=J2000'] + LINECHARS
 RANGES = [[(-1240.0, 'km/s'), (1240.0, 'km/s')], [(1.42, 'GHz'), (1.421, 'GHz')], [(1420.405, 'MHz'), (1421.0, 'MHz')],
           [(-320.0, 'm/s'), (-330.0, 'm/s')], [(5.0, 'chan'), (20.0, 'chan')], [(1.5, 'kHz'), (2.25, 'kHz')],
           [(100.0, 'Hz'), (200.0, 'Hz')]]
